@@ -42,7 +42,8 @@ def run_into(rep, tier, prop, focus=None, budget=None, main_sim=None):
     rep.add_tlc('GinDynReg_Export_rebind(every file of the family where two imports bind one name, with the specification result)', rx, exhaustive=True)
     if rx.violation:
       raise tlc.TLCError('design-level violation in the re-binding family: %s' % rx.violation)
-    sib += [c for c in _cases(rx) if c['status'] == 'ok' and c['cfg'] and sum(1 for x in c['doc'] if x['t'] == 'import') >= 2]
+    sib += [c for c in _cases(rx) if c['status'] == 'ok' and c['cfg'] and
+            (sum(1 for x in c['doc'] if x['t'] == 'import') >= 2 or any(x['t'] == 'import' and x['alias'] == 'pk' for x in c['doc']))]
     mx = tlc.run('GinDynReg_Export', 'GinDynReg_Export_meth.cfg', workers=1, timeout=900)
     rep.add_tlc('GinDynReg_Export_meth(every file of the method family: references made before / after methods are configured)', mx, exhaustive=True)
     if mx.violation:
@@ -73,7 +74,8 @@ def run_into(rep, tier, prop, focus=None, budget=None, main_sim=None):
   def _pri(c):
     refs = [b for b in c['cfg'] if b.get('ref', 'none') != 'none']
     meths = [b for b in c['cfg'] if b['obj'] in ('meth', 'im')]
-    return -(2 * bool(meths and any(b.get('rscope') for b in refs)) + bool(meths and any(b['ref'] == 'Inner' for b in refs)))
+    alias_pk = any(x['t'] == 'import' and x['alias'] == 'pk' for x in c['doc'])
+    return -(2 * bool(meths and any(b.get('rscope') for b in refs)) + bool(meths and any(b['ref'] == 'Inner' for b in refs)) + 2 * alias_pk)
   sb.sort(key=_pri)
   h = h + sb[:budget // 4]
   rest = [c for c in chosen if not c.get('prev') and c.get('family') != 'sib'][:budget - len(h)]
